@@ -123,6 +123,13 @@ func (r *Report) Outcome(class string) {
 	r.mu.Unlock()
 }
 
+// OutcomeN counts n executions under an outcome class.
+func (r *Report) OutcomeN(class string, n int64) {
+	r.mu.Lock()
+	r.Outcomes[class] += n
+	r.mu.Unlock()
+}
+
 // Sample keeps up to 6 written-out cases per report.
 func (r *Report) Sample(s any) {
 	r.mu.Lock()
